@@ -2011,7 +2011,8 @@ func decodeRunes(s string, n int) (string, int) {
 // not valid hex.
 func parseRune(hex string) rune {
 
-	n, err := strconv.ParseInt(hex, 16, 32)
+	// ParseUint does not accept a sign (\u+041 is not an escape).
+	n, err := strconv.ParseUint(hex, 16, 32)
 	if err != nil {
 		return -1
 	}
